@@ -449,6 +449,14 @@ func runCheckAll(p *Program, r *RuleResult) {
 			if !(isErrorType(res) || isNamed(res, processPkg, "TypeError")) {
 				continue
 			}
+			// a named check (function or method), not a local func value: a recursive
+			// closure that walks a graph skips visited nodes by design
+			if call.Common().StaticCallee() == nil && !call.Common().IsInvoke() {
+				continue
+			}
+			if sc := call.Common().StaticCallee(); sc != nil && sc.Parent() != nil {
+				continue
+			}
 			var loop *Loop
 			for _, l := range loops {
 				if l.Body[call.Block()] && (loop == nil || len(l.Body) < len(loop.Body)) {
